@@ -14,9 +14,11 @@ import (
 
 	"github.com/arloliu/go-secs/v2/hsms"
 	"github.com/arloliu/go-secs/v2/secs2"
+	"github.com/arloliu/go-secs/v2/zverif/vsched"
 
 	"verif/e2"
 	"verif/e3"
+	"verif/peer"
 	"verif/vfw"
 )
 
@@ -122,6 +124,100 @@ func scenarios() []e3.Scenario {
 					}
 					if sendErr == nil {
 						e.Violate("send-nil-nil", "a reply-expected send returned (nil reply, nil error) although the peer never replied")
+					}
+					post(e, true)
+				},
+			})
+		}
+	}
+
+	// an involuntary drop starts the reconnect loop; Close races its backoff, its fence and
+	// its publish of the successor generation (clock thread lets the backoff timer land)
+	for _, active := range []bool{true, false} {
+		active := active
+		role := map[bool]string{true: "active", false: "passive"}[active]
+		{
+			var closeErr error
+			out = append(out, e3.Scenario{
+				Name: role + "-drop-reconnect-vs-close", Horizon: 60 * time.Second,
+				Setup: func(e *e3.Env) {
+					o := opts(active)
+					e.W.NewConn(o)
+					if err := e.W.Establish(o); err != nil {
+						panic(err)
+					}
+					pc := e.W.Peer
+					e.Thread("peer", func() { _ = pc.Close() })
+					e.Thread("clock", func() { vsched.Tick(); vsched.Tick() })
+					e.Thread("close", func() { closeErr = e.W.C.Close() })
+				},
+				Finish: func(e *e3.Env) {
+					if closeErr != nil {
+						e.Violate("close-error", "Close returned %v", closeErr)
+					}
+					post(e, true)
+				},
+			})
+		}
+		// drop, then Close immediately followed by Open: a stale reconnect loop must not
+		// publish over (or leak beside) the reopened connection
+		{
+			var closeErr, openErr error
+			out = append(out, e3.Scenario{
+				Name: role + "-drop-close-reopen", Horizon: 60 * time.Second,
+				Setup: func(e *e3.Env) {
+					o := opts(active)
+					e.W.NewConn(o)
+					if err := e.W.Establish(o); err != nil {
+						panic(err)
+					}
+					pc := e.W.Peer
+					e.Thread("peer", func() { _ = pc.Close() })
+					e.Thread("clock", func() { vsched.Tick() })
+					e.Thread("app", func() {
+						closeErr = e.W.C.Close()
+						openErr = e.W.C.Open(context.Background(), hsms.OpenBackground)
+					})
+				},
+				Finish: func(e *e3.Env) {
+					if closeErr != nil || openErr != nil {
+						e.Violate("close-open-error", "Close returned %v, the following Open returned %v", closeErr, openErr)
+						return
+					}
+					w := e.W
+					w.Advance(300 * time.Millisecond) // past the first backoff, well inside T6
+					// exactly one live generation: one fresh link can be selected and works
+					for p := w.Net.TakePeer(); p != nil; p = w.Net.TakePeer() {
+						if w.Peer != nil && !w.Peer.IsClosed() {
+							_ = w.Peer.Close()
+						}
+						w.Peer = p
+					}
+					ok := false
+					if active {
+						if w.Peer != nil && !w.Peer.SawEOF() {
+							ok = true
+						}
+					} else {
+						ok = w.AttachPeer(false)
+					}
+					if !ok {
+						e.Violate("reopen-no-link", "after drop, Close and Open no TCP link could be established")
+					} else if active {
+						// the harness parser is reset by hand: read the pending Select.req
+						var pp peer.Parser
+						sel := false
+						for _, f := range pp.Feed(w.Peer.Drain()) {
+							if f.SType == peer.SSelectReq {
+								w.SendRaw(peer.Ctrl(peer.SSelectRsp, f.Session, 0, 0, f.Sys).Bytes())
+								sel = true
+							}
+						}
+						if !sel || w.C.State() != hsms.SelectedState {
+							e.Violate("reopen-no-select", "after drop, Close and Open the connection did not reach Selected (Select.req seen=%v, state %v)", sel, w.C.State())
+						}
+					} else if err := w.SelectOnPeer(false); err != nil {
+						e.Violate("reopen-no-select", "after drop, Close and Open: %v", err)
 					}
 					post(e, true)
 				},
